@@ -219,7 +219,9 @@ func (sc *scenario) warmDecisions() {
 				d := decision{ob: ob, mark: mark, must: must}
 				// docs/en/configuration/dns.md + routing.md: dae intercepts all UDP traffic to port 53 unless the matching
 				// rule is a must rule; an intercepted query is handed to the control plane, which routes it itself.
-				if c.proto == ipUDP && c.dst.Port() == 53 && !must {
+				// DNS over TCP (a TCP session to port 53) is intercepted the same way: the control plane's connection
+				// handler answers it through the DNS controller (control/tcp.go, "DNS-over-TCP traffic (port 53)").
+				if c.dst.Port() == 53 && !must {
 					d.ob = uint8(consts.OutboundControlPlaneRouting)
 				}
 				sc.decCache[[3]int{pi, ci, learned}] = d
@@ -250,7 +252,7 @@ func (sc *scenario) outcome(m *model, c *conv, d decision) expect {
 	}
 	switch {
 	case d.ob == uint8(consts.OutboundControlPlaneRouting):
-		return expect{kind: xHandover, rec: rec, why: "UDP port 53 without a must rule is intercepted: handed to dae for control-plane routing"}
+		return expect{kind: xHandover, rec: rec, why: "traffic to the DNS port (UDP datagram or TCP session to port 53) without a must rule is intercepted: handed to dae for control-plane routing, whatever the health bits say"}
 	case d.ob == uint8(consts.OutboundDirect):
 		if sc.side == sideLAN {
 			return expect{kind: xPass, mark: d.mark, why: "traffic routed to direct is let through unmodified (a mark given on the rule is set on forwarded LAN traffic)"}
